@@ -7,9 +7,11 @@ import contracts.chunk as CH
 import contracts.getiter as GI
 import contracts.standins_context as BX
 import contracts.standins_selection as BS
+import contracts.storage as ST
+import contracts.context as CX
 
 PROVED = [SEL.apply_time_range, SEL.apply_selection_range, SEL.apply_selection_none, SEL.loader_range, CH.chunk_split, GI.get_iter,
-          GI.estimate_run_start_and_end]
+          GI.estimate_run_start_and_end, GI.tatr_time_within, ST.read_and_format, CX.check_cache]
 
 PROPERTY = Property(
     "C10", "proof",
@@ -27,7 +29,7 @@ PROPERTY = Property(
     assumptions=["row selections (strings / callables, numexpr), column projections, the seconds / time_within conversion and the "
                  "composition through both processors are not part of the proof: they are covered by the bounded stand-ins only "
                  "(apply_selection with selections and columns; Context.get_array on stored data)",
-                 "'nothing is saved by a partial request' is carried by C11's dominance obligations"],
+                 "'nothing is saved by a partial request' is carried by check_cache's dominance obligations (the contract is shared with C11)"],
     explanation="time-range selection commutes with chunking: apply_time_range keeps a contiguous run of rows and drops only rows "
                 "that neither selection mode would select; the loader's chunk pruning likewise; apply_selection keeps exactly the "
                 "fully-contained / touching rows; together: select(range, rows loaded) = select(range, all rows) for every chunking",
